@@ -111,6 +111,66 @@ def shard_threads(sh: Shard, seed, runs, nthreads, calls):
         for _ in range(wc):
             lastc = sock.get_and_increment_sequence_counter(True)
         out = [[] for _ in range(nthreads)]
+        # every other run the socket's OWN worker thread asks too (as it does for every acknowledgement
+        # and every step of the handshake): from a receive handler, fed by a scripted OS socket
+        feed = None
+        if run_i % 2 == 1:
+            import socket as _socket
+            import time as _time
+
+            from geckolib.driver import GeckoUdpProtocolHandler
+
+            wplan = [r.random() < 0.3 for _ in range(400)]
+
+            class Feed:
+                def __init__(self):
+                    self.stop = False
+                    self.n = 0
+
+                def settimeout(self, t):
+                    pass
+
+                def setsockopt(self, *a):
+                    pass
+
+                def bind(self, *a):
+                    pass
+
+                def sendto(self, data, addr):
+                    return len(data)
+
+                def close(self):
+                    self.stop = True
+
+                def recvfrom(self, n):
+                    if self.stop or self.n >= len(wplan):
+                        _time.sleep(0.005)
+                        raise _socket.timeout()
+                    self.n += 1
+                    return b"TICK", ("127.0.0.1", 1)
+
+            class Tick(GeckoUdpProtocolHandler):
+                def can_handle(self, received_bytes, sender):
+                    return received_bytes == b"TICK"
+
+                def handle(self, received_bytes, sender):
+                    k = wplan[len(out[-1]) % len(wplan)]
+                    out[-1].append((k, sock.get_and_increment_sequence_counter(k)))
+
+            feed = Feed()
+            sock2 = GeckoUdpSocket(socket=feed) if "socket" in GeckoUdpSocket.__init__.__code__.co_varnames else None
+            if sock2 is not None:
+                # same warm-up position on the socket that owns a worker
+                for _ in range(wp):
+                    sock2.get_and_increment_sequence_counter(False)
+                for _ in range(wc):
+                    sock2.get_and_increment_sequence_counter(True)
+                sock = sock2
+                out.append([])  # the worker's results
+                sock.add_receive_handler(Tick())
+                sh.count("runs_with_the_sockets_own_worker_thread_asking")
+            else:
+                feed = None
         pcmd = r.choice([0.0, 0.2, 0.5, 1.0])
         plan = [[r.random() < pcmd for _ in range(calls)] for _ in range(nthreads)]
         start = threading.Barrier(nthreads)
@@ -124,11 +184,20 @@ def shard_threads(sh: Shard, seed, runs, nthreads, calls):
 
         with YieldInjector([code], prob=0.3, seed=seed * 100 + run_i) as inj:
             ts = [threading.Thread(target=body, args=(i,)) for i in range(nthreads)]
+            if feed is not None:
+                sock.open()  # starts the worker thread on the scripted socket
             for t in ts:
                 t.start()
             for t in ts:
                 t.join(120)
             alive = [t for t in ts if t.is_alive()]
+            if feed is not None:
+                feed.stop = True
+                try:
+                    sock.close()
+                except Exception:
+                    pass
+                sh.count("numbers_taken_by_worker_threads", len(out[-1]))
         total_events += inj.events
         if alive:
             sh.inconc("threads did not finish within the watchdog")
@@ -164,6 +233,7 @@ def main(tier, seed):
     else:
         jobs = [{"seed": seed * 50 + i, "runs": 12, "nthreads": 8 + (i % 9), "calls": 3000} for i in range(NCPU)]
     run.absorb(run_shards("checks.c16", "shard_threads", jobs, timeout=2400, workers=8))
+    run.need(run.counters.get("runs_with_the_sockets_own_worker_thread_asking", 0) >= 4 and run.counters.get("numbers_taken_by_worker_threads", 0) >= 200, "the socket's own worker thread hardly took part in the concurrent allocation")
     try:
         from checks import c16_wire
 
